@@ -222,6 +222,29 @@ def shrink(plan):
             yield variant(lambda p, i=i: p["ops"][i].__setitem__("form", 0))
 
 
+def on_crash(ctx, crash):
+    """Every operation of the workload is a legal light command: an exception raised inside the light path that
+    reaches the loop (MPF stops, the lights freeze) makes 'hardware equals the stack's colour' impossible.
+    Exceptions whose innermost frame is outside /mpf/ (harness code) stay harness errors."""
+    import traceback
+    exc = crash.exc
+    if exc is None:
+        return None
+    chain = []
+    e = exc
+    while e is not None and len(chain) < 5:
+        chain.append(e)
+        e = e.__cause__ or e.__context__
+    for e in reversed(chain):
+        frames = traceback.extract_tb(e.__traceback__)
+        if frames and "/mpf/" in frames[-1].filename and "/verif/" not in frames[-1].filename:
+            last = frames[-1]
+            return ("crash_in_light_path", "%s in %s" % (type(e).__name__, last.name),
+                    "%s: %s raised in %s (%s:%d) reached the event loop: MPF stops"
+                    % (type(e).__name__, e, last.name, last.filename.split("/mpf/")[-1], last.lineno))
+    return None
+
+
 def warm():
     from sim.machine import preload
     preload("c09")
